@@ -57,11 +57,11 @@ func JSONWriteValue(b *[]byte, s []byte) (notEmpty bool) {
 }
 
 func JSONWriteNaturalLanguageProp(b *[]byte, n string, nl NaturalLanguageValues) (notEmpty bool) {
-	l := nl.Count()
-	if l > 1 {
-		n += "Map"
-	}
 	if v, err := nl.MarshalJSON(); err == nil && len(v) > 0 {
+		// the term follows the form that was written: a language map goes under <term>Map
+		if v[0] == '{' {
+			n += "Map"
+		}
 		return JSONWriteProp(b, n, v)
 	}
 	return false
